@@ -80,7 +80,8 @@ impl Selector {
         assert!(id < self.vec.len());
         #[cfg(feature = "io_timeout")]
         let timeout_ms = _timeout
-            .map(|to| EpollTimeout::try_from(to.div_ceil(1_000_000)).unwrap())
+            // epoll takes at most i32::MAX ms, waking up earlier is harmless
+            .map(|to| EpollTimeout::try_from(to.div_ceil(1_000_000).min(i32::MAX as u64)).unwrap())
             .unwrap_or(EpollTimeout::NONE);
         #[cfg(not(feature = "io_timeout"))]
         let timeout_ms = EpollTimeout::NONE;
